@@ -20,7 +20,7 @@ use crate::runner::*;
 use crate::tape::Tape;
 use crate::Ctx;
 use ironplc_analyzer::stages::analyze;
-use ironplc_dsl::common::Library;
+use ironplc_dsl::common::{DataTypeDeclarationKind, Library, LibraryElementKind};
 use ironplc_dsl::core::FileId;
 use ironplc_dsl::diagnostic::Diagnostic;
 use ironplc_parser::options::ParseOptions;
@@ -235,6 +235,56 @@ fn check_tape(tape: &[u8], gates: &Gates, stats: &mut Stats, counting: bool, cli
         let copy = chunks[d].clone();
         chunks.push(copy);
     }
+    // fourth variant: a valid unit from which one declaration is MISSING - a data type or a function
+    // block that at least two other declarations use.  Every use is an "unknown type" of its own;
+    // which uses are reported, and where, is a matter of the set, not of its arrangement (compared
+    // like a single-fault unit: codes and places)
+    let mut missing_decl = false;
+    if !use_fault && !duplicate && choice.ratio(1, 3) && gates.want("MISSING_DECLARATION_WITH_SEVERAL_USERS") {
+        let names: Vec<Option<String>> = unit
+            .lib
+            .elements
+            .iter()
+            .map(|e| match e {
+                LibraryElementKind::FunctionBlockDeclaration(f) => Some(f.name.original().to_string()),
+                LibraryElementKind::DataTypeDeclaration(d) => match d {
+                    DataTypeDeclarationKind::Enumeration(x) => Some(x.type_name.name.original().to_string()),
+                    DataTypeDeclarationKind::Structure(x) => Some(x.type_name.name.original().to_string()),
+                    DataTypeDeclarationKind::Array(x) => Some(x.type_name.name.original().to_string()),
+                    _ => None,
+                },
+                _ => None,
+            })
+            .collect();
+        let word_in = |hay: &str, w: &str| -> bool {
+            let h = hay.to_ascii_lowercase();
+            let w = w.to_ascii_lowercase();
+            let b = h.as_bytes();
+            let mut from = 0;
+            while let Some(p) = h[from..].find(&w) {
+                let s = from + p;
+                let e = s + w.len();
+                let okb = s == 0 || !(b[s - 1].is_ascii_alphanumeric() || b[s - 1] == b'_');
+                let oke = e >= b.len() || !(b[e].is_ascii_alphanumeric() || b[e] == b'_');
+                if okb && oke {
+                    return true;
+                }
+                from = s + 1;
+            }
+            false
+        };
+        let cands: Vec<usize> = (0..names.len().min(chunks.len()))
+            .filter(|&i| match &names[i] {
+                Some(nm) => (0..chunks.len()).filter(|&j| j != i && word_in(&chunks[j], nm)).count() >= 2,
+                None => false,
+            })
+            .collect();
+        if !cands.is_empty() {
+            let d = cands[choice.below(cands.len())];
+            chunks.remove(d);
+            missing_decl = true;
+        }
+    }
     // a chunk that declares nothing (a comment, blank lines, nothing at all): in the partitions it
     // becomes a file of its own - first, in the middle or last - and a file without declarations
     // changes nothing about the set
@@ -287,7 +337,7 @@ fn check_tape(tape: &[u8], gates: &Gates, stats: &mut Stats, counting: bool, cli
         }
         return Ok(());
     }
-    let single_fault = unit.planted.is_some() && !unsupported;
+    let single_fault = (unit.planted.is_some() && !unsupported) || missing_decl;
     let mut arrangements: Vec<Arrangement> = vec![];
     if n <= 5 {
         for p in permutations(n) {
@@ -315,6 +365,9 @@ fn check_tape(tape: &[u8], gates: &Gates, stats: &mut Stats, counting: bool, cli
             let nt = n >= 3 && unit.ref_edges >= 2 && arr != &canonical;
             stats.case(nt, hash_str(&format!("{}|{}", arr.describe(), chunks.join("\u{1}"))));
             stats.class(if arr.files.len() == 1 { "arrangement.permutation" } else { "arrangement.partition" });
+            if missing_decl {
+                stats.class("arrangement.of-a-unit-with-a-missing-declaration");
+            }
         }
         if o.ok != base.ok {
             return Err(fail("arrangement", "verdict-differs", format!("canonical single file: ok={} codes {:?}; arrangement {}: ok={} codes {:?}", base.ok, base.codes, arr.describe(), o.ok, o.codes), arr));
